@@ -816,6 +816,13 @@ func (h *fsHandler) handleRequest(c context.Context, ctx *RequestContext) {
 			ctx.AbortWithMsg("Internal Server Error", consts.StatusInternalServerError)
 			return
 		}
+		// The trailing slashes were stripped above, so a path that ends in "/.." is a "/../" path as well; and
+		// the path is appended to the root as it is, so it must start with a slash to stay below it.
+		if bytes.HasSuffix(path, bytestr.StrSlashDotDotSlash[:3]) || (len(path) > 0 && path[0] != '/') {
+			hlog.SystemLogger().Errorf("Cannot serve rewritten path %q due to security reasons", path)
+			ctx.AbortWithMsg("Internal Server Error", consts.StatusInternalServerError)
+			return
+		}
 	}
 
 	mustCompress := false
